@@ -116,3 +116,12 @@ reg("C20", "explore", "model_checking",
     "(domain, upper-case, subdomains, look-alikes, other) with and without a caller cookie equals the reference jar's answer.",
     "Trusted: reference jar (dict) in mc/props/c20.py; http.cookies parsing is part of the code under test.",
     "DESIGN.md section 6 C20")
+
+reg("C13", "sched", "model_checking",
+    "exhaustive enumeration of server traffic histories x callback subsets x raising callback x transport, each executed by the real run_forever under a controlled scheduler in virtual time; timed callback trace compared with a reference",
+    "All histories of up to 3 (quick) / 4 (thorough) segments over 8 segment kinds (text, binary, fragmented in one/two segments, ping, pong, bursts) at distinct "
+    "virtual instants followed by silence, first segment optionally glued to the 101 response, plain socket + Dispatcher and TLS-record transport + SSLDispatcher, "
+    "callback subsets (thorough: all 128 for short histories), each callback raising, first and re-established connection: every event exactly once, in order, "
+    "with the right arguments, at the virtual instant its last byte arrived.",
+    "Trusted: the simulated kernel (mc/tnet.py: TCP coalescing, TLS record semantics, selector readiness) and the scheduler's virtual clock (mc/sched.py).",
+    "DESIGN.md section 6 C13")
